@@ -445,8 +445,13 @@ def inspect(I, case, cfg, nums, redefined_now, sd, ctx):
                     F = open(path, "rb").read().decode("latin-1")
                 if F is None:
                     pass
-                elif n in redefined_now:
-                    # a redefinition re-opens (truncates) the file: it holds the rows since the last definition
+                elif n in redefined_now and not case.get("strict_redefinition"):
+                    # KNOWN FINDING (known_findings.json: file-truncated-at-redefinition): a redefinition of the
+                    # block inside a run re-opens (truncates) the file, so the file holds only the rows since the
+                    # last definition while string and table keep all rows of the run.  Generated cases exclude
+                    # that trigger by construction here (counted as file_after_redefinition) and still demand that
+                    # the file is a suffix of the string; the known replay sets "strict_redefinition" and applies
+                    # the property as stated.
                     if cfg["string_on"] and not S.endswith(F):
                         raise Violation("file_vs_string", "file of redefined user %d is not a suffix of its string" % n)
                     ctx.event("file_after_redefinition")
